@@ -19,7 +19,9 @@ fn valid_len(v: &str) -> Option<Option<u64>> {
 fn vp_native_framing_decision_matrix() {
     let cl_values = ["0", "3", "03", "-3", "3a", " 3", "", "18446744073709551615", "18446744073709551616", "99999999999999999999",
                      "18446744073709551621", "1e2", "+3", "00000000000000000000005"];
-    let te_values: [Option<&str>; 6] = [None, Some("chunked"), Some("Chunked"), Some("foo, chunked"), Some("identity,CHUNKED"), Some("gzip")];
+    // Transfer-Encoding as a list of field lines (a list split over several lines is the same list, RFC 9110 5.3)
+    let te_values: [&[&str]; 10] = [&[], &["chunked"], &["Chunked"], &["foo, chunked"], &["identity,CHUNKED"], &["gzip"],
+                                    &["identity", "chunked"], &["foo", "bar , Chunked"], &["chunked", "identity"], &["identity", "x-other"]];
     let statuses = [100u16, 199, 200, 204, 206, 304, 404, 500];
     let body = b"5\r\nhello\r\n0\r\n\r\nTAIL";
     let mut cases = 0u64;
@@ -34,7 +36,12 @@ fn vp_native_framing_decision_matrix() {
                     if cls.iter().any(|v| v.is_empty()) && cls.len() > 1 { continue; }
                     let mut wire = format!("HTTP/1.1 {} X\r\n", status).into_bytes();
                     for v in cls { wire.extend_from_slice(format!("Content-Length: {}\r\n", v).as_bytes()); }
-                    if let Some(t) = te { wire.extend_from_slice(format!("Transfer-Encoding: {}\r\n", t).as_bytes()); }
+                    for (i, t) in te.iter().enumerate() {
+                        wire.extend_from_slice(format!("Transfer-Encoding: {}\r\n", t).as_bytes());
+                        if i == 0 && te.len() > 1 { wire.extend_from_slice(b"X-Between: 1\r\n"); }
+                    }
+                    let joined = te.join(",");
+                    let te: Option<&str> = if te.is_empty() { None } else { Some(&joined) };
                     wire.extend_from_slice(b"\r\n");
                     wire.extend_from_slice(body);
                     let req = PreparedRequest::new(method.clone(), "http://a.test/");
@@ -54,7 +61,7 @@ fn vp_native_framing_decision_matrix() {
                     }
                     if chunked_somewhere { continue; }
                     // gzip declared without being gzip data: decoding fails, not a framing question
-                    if te == Some("gzip") { continue; }
+                    if te.map_or(false, |t| t.to_ascii_lowercase().contains("gzip")) { continue; }
                     let parsed: Vec<Option<Option<u64>>> = cls.iter().map(|v| valid_len(v.trim_matches(' '))).collect();
                     if parsed.iter().any(|p| p.is_none()) { continue; }
                     let vals: Vec<Option<u64>> = parsed.into_iter().map(|p| p.unwrap()).collect();
